@@ -128,6 +128,25 @@ func init() {
 	for p := range fsRuleSets {
 		checks[p] = checkFs(p)
 	}
+	base10 := checks["C10"]
+	checks["C10"] = func(p *Program, r *Report) {
+		base10(p, r)
+		// open files are read positionally through the descriptor opened at
+		// construction, so unlinking a table does not disturb a reader (T3)
+		r2 := newReport(r.Property, r.Tier, r.Seed)
+		checkEffects(p, r2)
+		for k, o := range r2.Obl {
+			if o.Rule != "E4" {
+				continue
+			}
+			if v, bad := r2.Viol[k]; bad {
+				r.violate("HANDLE-KEEP", strings.TrimPrefix(k, "E4 / "), v.Where, v.Message, nil)
+			} else {
+				r.ok("HANDLE-KEEP", strings.TrimPrefix(k, "E4 / "), o.Note)
+			}
+		}
+		r.Engines = append(r.Engines, "effects")
+	}
 	checks["C07"] = func(p *Program, r *Report) {
 		checkFsSubset(p, r, []string{"COMPACT-PUBLISHES", "LIST-CONTENT", "ORDER-DELETE-LAST"}, map[string]int{"COMPACT-PUBLISHES": 2, "LIST-CONTENT": 4})
 		checkCompactionTables(p, r, false, true)
